@@ -313,6 +313,14 @@ where
 }
 
 pub(crate) const BUFFER_SIZE: usize = 256;
+#[cfg(not(all(zlink_verif, zlink_verif_small_buf)))]
 const MAX_BUFFER_SIZE: usize = 100 * 1024 * 1024; // Don't allow buffers over 100MB.
+#[cfg(all(zlink_verif, zlink_verif_small_buf))]
+const MAX_BUFFER_SIZE: usize = 64 * 1024;
+
+#[cfg(zlink_verif)]
+pub(crate) fn verif_max_buffer_size() -> usize {
+    MAX_BUFFER_SIZE
+}
 
 static NEXT_ID: AtomicUsize = AtomicUsize::new(0);
